@@ -43,6 +43,8 @@ type Op struct {
 	B    int    `json:"b"`
 	C    int    `json:"c"`
 	D    int    `json:"d"`
+	// (nextindex / newround) the context event of the previous context arrives after the new one
+	Reordered bool `json:"reordered,omitempty"`
 }
 
 // Case is a history of timers, proposals, received votes and crash/restarts.
@@ -98,9 +100,13 @@ func genCase(t *rapid.T) Case {
 		case 9:
 			c.Ops = append(c.Ops, op("resume"))
 		case 0, 1, 2:
-			c.Ops = append(c.Ops, op("nextindex"))
+			o := op("nextindex")
+			o.Reordered = rapid.IntRange(0, 4).Draw(t, "reorder") == 0
+			c.Ops = append(c.Ops, o)
 		case 3:
-			c.Ops = append(c.Ops, op("newround"))
+			o := op("newround")
+			o.Reordered = rapid.IntRange(0, 2).Draw(t, "reorder") == 0
+			c.Ops = append(c.Ops, o)
 		case 4, 5:
 			cr := op("crash")
 			cr.A = 2 // clean stop between two events
@@ -451,10 +457,21 @@ func runCase(c Case) kit.Result {
 			desc = fmt.Sprintf("timer: step %d at (%d,%d)", step, round, index)
 			fn = func() { voter.VerifUpdateContext(round, index, step, isCert(round)) }
 		case "nextindex", "timeout":
+			or, oi, os := round, index, step
 			index += 1 + uint32(op.A%2)
 			step = 0
 			desc = fmt.Sprintf("next round index: context (%d,%d) step 0", round, index)
 			fn = func() { voter.VerifUpdateContext(round, index, step, isCert(round)) }
+			if op.Reordered {
+				// context changes are posted with AsyncPost (one goroutine each): two consecutive ones - a step tick
+				// right before the transition - may reach the voter in swapped order
+				labels["context-events-reordered"] = true
+				desc += fmt.Sprintf("; the event of the previous context (%d,%d) step %d is delivered AFTER it (AsyncPost reordering)", or, oi, os)
+				fn = func() {
+					voter.VerifUpdateContext(round, index, step, isCert(round))
+					voter.VerifUpdateContext(or, oi, os, isCert(or))
+				}
+			}
 		case "resume":
 			// Server.Pause + Server.Resume (or a late ContextChangeEvent): the SAME voter object and vote
 			// database re-enter the current round at round index 1 (Resume -> StartNewRound(true) -> clearData)
@@ -463,11 +480,20 @@ func runCase(c Case) kit.Result {
 			desc = fmt.Sprintf("pause/resume: context back to (%d,%d) step 0, same process", round, index)
 			fn = func() { voter.VerifUpdateContext(round, index, step, isCert(round)) }
 		case "newround":
+			or, oi, os := round, index, step
 			round++
 			index, step = 1, 0
 			votedThisRound = false
 			desc = fmt.Sprintf("new block: context (%d,%d) step 0", round, index)
 			fn = func() { voter.VerifUpdateContext(round, index, step, isCert(round)) }
+			if op.Reordered {
+				labels["context-events-reordered"] = true
+				desc += fmt.Sprintf("; the event of the previous context (%d,%d) step %d is delivered AFTER it (AsyncPost reordering)", or, oi, os)
+				fn = func() {
+					voter.VerifUpdateContext(round, index, step, isCert(round))
+					voter.VerifUpdateContext(or, oi, os, isCert(or))
+				}
+			}
 		case "propose":
 			b := e.block(round, op.A%3)
 			prio := common.BytesToHash([]byte{byte(op.B), byte(op.A % 3), 1})
